@@ -34,15 +34,26 @@ func atomicWrite(op Op) bool {
 	return op.Kind == "overwrite" && len(op.Data) > 0 && op.Off/sector == (op.Off+len(op.Data)-1)/sector
 }
 
-// dataOps returns the indices (in ops[:prefix]) of the last k data writes.
-func lastDataOps(ops []Op, prefix, k int) []int {
-	var idx []int
-	for i := prefix - 1; i >= 0 && len(idx) < k; i-- {
-		if ops[i].Kind != "create" {
-			idx = append(idx, i)
+// lastDataOps returns the last k data writes before prefix as groups of log indices (most
+// recent first). Sub-sector in-place writes to one sector reach the disk together (a sector is
+// written as a whole), so a run of them is one unit that is lost or kept as a whole.
+func lastDataOps(ops []Op, prefix, k int) [][]int {
+	var groups [][]int
+	for i := prefix - 1; i >= 0 && len(groups) < k; i-- {
+		if ops[i].Kind == "create" {
+			continue
 		}
+		g := []int{i}
+		if ops[i].Kind == "overwrite" {
+			for i-1 >= 0 && ops[i-1].Kind == "overwrite" && ops[i-1].File == ops[i].File &&
+				ops[i-1].Off/sector == ops[i].Off/sector {
+				i--
+				g = append(g, i)
+			}
+		}
+		groups = append(groups, g)
 	}
-	return idx // most recent first
+	return groups
 }
 
 // enumerate lists every crash state of a history's log:
@@ -50,9 +61,9 @@ func lastDataOps(ops []Op, prefix, k int) []int {
 //	(i)   every prefix of the log,
 //	(ii)  the next write torn at every byte offset,
 //	(iii) the next (appending) write with its size on disk but only the first t bytes of data,
-//	      the rest zero, for every t,
+//	      the rest zero, for every t (quick tier: every t < 128, then every 4th),
 //	(iv)  every non-suffix subset of the last k<=3 writes lost (nothing is ever fsync'ed).
-func enumerate(hist int, ops []Op) []StateDesc {
+func enumerate(hist int, ops []Op, everyByte bool) []StateDesc {
 	var out []StateDesc
 	for i := 0; i <= len(ops); i++ {
 		out = append(out, StateDesc{Hist: hist, Prefix: i, Kind: "clean"})
@@ -64,7 +75,11 @@ func enumerate(hist int, ops []Op) []StateDesc {
 				out = append(out, StateDesc{Hist: hist, Prefix: i, Kind: "torn", T: t})
 			}
 			for t := 0; t < len(op.Data); t++ {
-				out = append(out, StateDesc{Hist: hist, Prefix: i, Kind: "zerotail", T: t})
+				// quick tier: every byte of the first 128 (all box headers and header fields of
+				// the unit's first boxes), then every 4th byte
+				if everyByte || t < 128 || t%4 == 0 {
+					out = append(out, StateDesc{Hist: hist, Prefix: i, Kind: "zerotail", T: t})
+				}
 			}
 		case "overwrite":
 			if atomicWrite(op) {
@@ -78,6 +93,10 @@ func enumerate(hist int, ops []Op) []StateDesc {
 	for i := 1; i <= len(ops); i++ {
 		if ops[i-1].Kind == "create" {
 			continue // same window as the previous prefix
+		}
+		if i < len(ops) && ops[i].Kind == "overwrite" && ops[i-1].Kind == "overwrite" && ops[i].File == ops[i-1].File &&
+			ops[i].Off/sector == ops[i-1].Off/sector {
+			continue // inside a run of in-place writes to one sector: not a distinct window
 		}
 		idx := lastDataOps(ops, i, 3)
 		k := len(idx)
@@ -113,9 +132,11 @@ func materialise(ops []Op, s StateDesc) map[string][]byte {
 	case "drop":
 		idx := lastDataOps(ops, s.Prefix, 3)
 		lost := map[int]bool{}
-		for j, oi := range idx {
+		for j, g := range idx {
 			if s.Mask&(1<<j) != 0 {
-				lost[oi] = true
+				for _, oi := range g {
+					lost[oi] = true
+				}
 			}
 		}
 		for i, op := range ops[:s.Prefix] {
